@@ -20,6 +20,7 @@ SIM_ASSUMPTIONS = [
     "SIM engine: tokio current-thread runtime with paused clock; both real connection tasks, all application actors and the in-memory WebSocket (harness/mux/src/memws.rs) run on it",
     "schedules are those produced by seeded jitter at poll boundaries (a task or a WebSocket poll may be postponed), link capacities 1/2/8/unbounded and flush back-pressure; real thread parallelism is not exercised here",
     "one total order of wire-tap, hook and API events per run; API events are logged at the client boundary (call before invoking, return after)",
+    "where a THR job is listed: the same scenarios also run on a 6-worker multi-thread runtime in real time with seeded sleeps at hook points; only rules that are sound without a global execution order give verdicts there, a wall-clock timeout is inconclusive",
 ]
 
 E2E_ASSUMPTIONS = [
@@ -69,8 +70,8 @@ PROPS = {
     "C02": {
         "level": "exploration",
         "jobs": {
-            "quick": [job("sim", "mux", "verif", "c02", 8)],
-            "thorough": [job("sim", "mux", "verif", "c02", 16)],
+            "quick": [job("sim", "mux", "verif", "c02", 8), job("thr", "mux", "verif", "c02", 4, extra=["--engine", "thr"])],
+            "thorough": [job("sim", "mux", "verif", "c02", 16), job("thr", "mux", "verif", "c02", 16, extra=["--engine", "thr"])],
         },
         "required_targets": {"any": ["reads", "eof_seen"]},
         "assumptions": COMMON_ASSUMPTIONS + SIM_ASSUMPTIONS,
@@ -78,8 +79,8 @@ PROPS = {
     "C03": {
         "level": "exploration",
         "jobs": {
-            "quick": [job("sim", "mux", "verif", "c03", 8)],
-            "thorough": [job("sim", "mux", "verif", "c03", 16)],
+            "quick": [job("sim", "mux", "verif", "c03", 8), job("thr", "mux", "verif", "c03", 4, extra=["--engine", "thr"])],
+            "thorough": [job("sim", "mux", "verif", "c03", 16), job("thr", "mux", "verif", "c03", 16, extra=["--engine", "thr"])],
         },
         "required_targets": {"any": ["writer_blocked_at_zero", "ack_raced_write"]},
         "assumptions": COMMON_ASSUMPTIONS + SIM_ASSUMPTIONS + [
@@ -137,8 +138,8 @@ PROPS = {
     "C11": {
         "level": "exploration",
         "jobs": {
-            "quick": [job("sim", "mux", "verif", "c11", 8)],
-            "thorough": [job("sim", "mux", "verif", "c11", 16)],
+            "quick": [job("sim", "mux", "verif", "c11", 8), job("thr", "mux", "verif", "c11", 4, extra=["--engine", "thr"])],
+            "thorough": [job("sim", "mux", "verif", "c11", 16), job("thr", "mux", "verif", "c11", 16, extra=["--engine", "thr"])],
         },
         "required_targets": {"any": ['dgram_received', 'dgram_arrived_at_full_buffer']},
         "assumptions": COMMON_ASSUMPTIONS + SIM_ASSUMPTIONS + ['loss licence is computed from the event order: every delivery that finds the (modelled) buffer full licenses one loss; the modelled occupancy is never below the real one, so the bound is never stricter than the statement', 'identity of a datagram = (flow id, port), unique per datagram by construction; payloads >= 8 bytes also carry it'],
